@@ -130,6 +130,10 @@ func (v *VerifRecvStream) Referenced() [][]byte {
 	return out
 }
 
+// C03CurrentFrame returns the stream's current frame (nil after the end-of-stream release),
+// whether or not it has been read completely: the buffer the stream still owes a release for.
+func (v *VerifRecvStream) C03CurrentFrame() []byte { return v.s.currentFrame }
+
 // VerifCryptoStream drives a real cryptoStream (receive side).
 type VerifCryptoStream struct{ s *cryptoStream }
 
